@@ -64,4 +64,4 @@ def gen(rng, tier):
 def run(tier, seed):
     return run_simple("C10", tier, seed, gen, TRUSTED,
                       "strings produced by dryoc (classic string API with a known salt via H3, object API with salts 8..=64 and hashes 16..=128 bytes) verified by libsodium with the right and a wrong password; libsodium-produced strings (argon2i and argon2id) verified / parsed / re-encoded by dryoc; canonical strings of both algorithms parse→re-encode to themselves (incl. salts/hashes whose base64 starts with 'argon2'); needs_rehash over a cost grid; distinct by (op, implementation answer)",
-                      ["base64 / integer parsing modelled, Argon2 by the Lean RFC 9106 spec"])
+                      ["base64 / integer parsing modelled, Argon2 by the Lean RFC 9106 spec"], concurrent=True)
